@@ -108,6 +108,22 @@ Example C10_detects_nonvacuous :
 Proof. exact EqualsMut.detects_nonvacuous. Qed.
 Print Assumptions C10_detects_nonvacuous.
 
+(** the units object a variable holds may be created by name, owned by the variable's model, by another model, by
+    none, or shared: equality of variables (hence of resets, components, models) does not depend on that, only on
+    the content of the units — same answer for every ownership, characterised by content, and unchanged when the
+    units are replaced by units of equal content *)
+Theorem C10_units_ownership_irrelevant : forall neq, neq_laws neq ->
+  forall (v w : variable) (o1 o2 o1' o2' : ownership),
+    eq_owned_variable neq (v, o1) (w, o2) = eq_owned_variable neq (v, o1') (w, o2')
+    /\ (eq_owned_variable neq (v, o1) (w, o2) = true <->
+        v_name v = v_name w /\ v_id v = v_id w /\ v_init v = v_init w /\ v_iface v = v_iface w
+        /\ opt_rel (sim_units neq) (v_units v) (v_units w))
+    /\ (forall u u', v_units v = Some u -> sim_units neq u u' ->
+        eq_owned_variable neq ({| v_name := v_name v; v_id := v_id v; v_units := Some u'; v_init := v_init v; v_iface := v_iface v |}, o1') (w, o2)
+        = eq_owned_variable neq (v, o1) (w, o2)).
+Proof. exact EqualsSummary.units_ownership_irrelevant. Qed.
+Print Assumptions C10_units_ownership_irrelevant.
+
 (** the instance used as oracle by the check *)
 Theorem C10_equals_ideal_equivalence :
   (forall a, equals_ideal a a = true)
